@@ -96,13 +96,15 @@ class TooSlow(BaseException):
 
 
 def _alarm(seconds):
+    """Limit on the CPU time of this process (not wall time: the machine
+    may be busy with other partitions)."""
     import signal
 
     def on_alarm(*a):
         raise TooSlow()
 
-    signal.signal(signal.SIGALRM, on_alarm)
-    signal.alarm(seconds)
+    signal.signal(signal.SIGVTALRM, on_alarm)
+    signal.setitimer(signal.ITIMER_VIRTUAL, seconds)
 
 
 def _logging():
@@ -455,7 +457,7 @@ def run_fuel():
                 for cls, m in P.all_mutators():
                     count[0] = 0
                     limit[0] = 64 * (size + 1) ** 2
-                    t1 = time.time()
+                    t1 = time.process_time()
                     _alarm(10)
                     try:
                         if hasattr(m, 'filter') and not m.filter(node):
@@ -490,7 +492,7 @@ def run_fuel():
                     calls += 1
                     if count[0] > worst[0]:
                         worst = (count[0], f'{cls} on {name}')
-                    if time.time() - t1 > 5 and bad is None:
+                    if time.process_time() - t1 > 5 and bad is None:
                         bad = ({'script': name, 'mutator': cls},
                                f'{cls} needs more than 5 s on {name}')
     finally:
